@@ -2099,6 +2099,12 @@ def fixup_asymmetric_weights(op: Operation, arch, nng) -> Operation:
     if detect_asymmetric_weights(op):
         if op.run_on_npu:
             print("Zero points have been adjusted.")
+            # This also runs before the supported operator check: keep the original zero point so that it can be
+            # restored if the operator ends up on the CPU, where it must be passed through unchanged.
+            zero_point = op.weights.quantization.zero_point
+            op.attrs.setdefault(
+                "original_weights_zero_point", zero_point.copy() if isinstance(zero_point, np.ndarray) else zero_point
+            )
             op.weights.quantization.zero_point *= 0
     return op
 
@@ -3001,6 +3007,9 @@ def merge_dequant_lut_quant(op, arch, nng=None):
 
 def supported_operator_check(op, arch, nng):
     op.run_on_npu = arch.tflite_supported_operators.is_operator_supported(op)
+    if not op.run_on_npu and "original_weights_zero_point" in op.attrs:
+        # undo fixup_asymmetric_weights: operators that run on the CPU are written back as they were read
+        op.weights.quantization.zero_point = op.attrs.pop("original_weights_zero_point")
     if not op.run_on_npu and "original_pool_attrs" in op.attrs:
         # undo fixup_pool_strides: operators that run on the CPU are written back as they were read
         op.attrs.update(op.attrs.pop("original_pool_attrs"))
